@@ -274,6 +274,25 @@ def _unparse(n):
         return t
 
 
+def _sort_in_place(lst, kw):
+    import functools
+    key = kw.get('key')
+    keyed = [(key(x) if key else x, i, x) for i, x in enumerate(lst)]
+
+    def cmp(a, b):
+        ka, kb = a[0], b[0]
+        if isinstance(ka, Obj) or isinstance(kb, Obj):
+            if _obj_compare(ast.Lt, ka, kb):
+                return -1
+            if _obj_compare(ast.Lt, kb, ka):
+                return 1
+            return 0
+        return -1 if ka < kb else (1 if kb < ka else 0)
+    keyed.sort(key=functools.cmp_to_key(cmp), reverse=bool(kw.get('reverse')))
+    lst[:] = [x for _, _, x in keyed]
+    return None
+
+
 def _kw(n, env, funcs):
     out = {}
     for k in n.keywords:
@@ -387,8 +406,11 @@ def ev(n, env, funcs=None):
                 rv = ev(f.value, env, funcs)
             except Unsupported:
                 rv = None
-            if isinstance(rv, (list, set, dict, str)) and fname in _CONTAINER_METHODS.get(type(rv).__name__, ()) and not n.keywords:
-                return getattr(rv, fname)(*_args(n, env, funcs))
+            if type(rv) in (list, set, dict, str, tuple, bytes, frozenset) and not fname.startswith('_') and hasattr(rv, fname):
+                kw_ = _kw(n, env, funcs)
+                if fname == 'sort' and callable(kw_.get('key')) or fname == 'sort':
+                    return _sort_in_place(rv, kw_)
+                return getattr(rv, fname)(*_args(n, env, funcs), **kw_)
             if isinstance(rv, PyStub):
                 if _repo_method(rv, fname) is not None or not hasattr(rv, fname):
                     rm = getattr(rv, 'repo_methods', None)
@@ -500,6 +522,18 @@ def ev(n, env, funcs=None):
             return [tuple(t) for t in zip(*args)]
         if isinstance(f, ast.Name) and fname in ('reversed', 'sorted') and len(args) == 1 and isinstance(args[0], (list, tuple)) and not n.keywords:
             return list(reversed(args[0])) if fname == 'reversed' else sorted(args[0])
+        if isinstance(f, ast.Name) and fname == 'sorted' and len(args) == 1 and n.keywords:
+            it_ = args[0]
+            if isinstance(it_, dict) or type(it_).__name__ in ('dict_keys', 'dict_values', 'dict_items') or isinstance(it_, (set, tuple, range, str)):
+                it_ = list(it_)
+            if isinstance(it_, list):
+                out_ = list(it_)
+                _sort_in_place(out_, _kw(n, env, funcs))
+                return out_
+        if isinstance(f, ast.Name) and fname in ('min', 'max') and len(args) == 1 and n.keywords and isinstance(args[0], (list, tuple)):
+            kw_ = _kw(n, env, funcs)
+            if callable(kw_.get('key')) and args[0]:
+                return (min if fname == 'min' else max)(args[0], key=kw_['key'])
         if isinstance(f, ast.Name) and fname in ('all', 'any', 'sum') and len(args) == 1 and isinstance(args[0], (list, tuple)):
             return {'all': all, 'any': any, 'sum': sum}[fname](args[0])
         if fname in ('min', 'max') and args:
@@ -898,6 +932,23 @@ def run_block(stmts, env, funcs=None, limit=10000):
                                              ast.unparse(it.context_expr.func).split('.')[-1] in ('catch_warnings', 'suppress', 'nullcontext', 'errstate')
                                              for it in s.items):
             r = run_block(s.body, env, funcs, limit)
+            if r[0] != 'fall':
+                return r
+        elif isinstance(s, ast.With):
+            entered = []
+            try:
+                for it in s.items:
+                    cm = ev(it.context_expr, env, funcs)
+                    if not hasattr(cm, '__enter__') or not hasattr(cm, '__exit__'):
+                        raise Unsupported('with %s' % _unparse(it.context_expr))
+                    v_ = cm.__enter__()
+                    entered.append(cm)
+                    if it.optional_vars is not None:
+                        _bind(it.optional_vars, v_, env, funcs)
+                r = run_block(s.body, env, funcs, limit)
+            finally:
+                for cm in reversed(entered):
+                    cm.__exit__(None, None, None)
             if r[0] != 'fall':
                 return r
         elif isinstance(s, (ast.Import, ast.ImportFrom)):
